@@ -38,7 +38,8 @@ RULE = ("enc: 12 classes x tables of 0..40 entries (+41,100,255,300) x payload l
         "<=3 (quick) / <=4 (thorough) starting with 0x81.  distinct = distinct (stream, function, size "
         "class / error kind and length bucket) signatures"
         "; history: message objects sent, looped back through the intermediate BVLPDU, changed and sent again through two real AnnexJCodecs, refused sends/datagrams in between, buffer-aliasing checks"
-        "; wave 5: caller-owned input buffers (aliasing on the input side) and a subclass-history stream in forked workers (unregistered user subclasses of the 12 BVLL classes with overridden decode / extra ctor argument, then standard traffic through a plain AnnexJCodec and a registry identity check)")
+        "; wave 5: caller-owned input buffers (aliasing on the input side) and a subclass-history stream in forked workers (unregistered user subclasses of the 12 BVLL classes with overridden decode / extra ctor argument, then standard traffic through a plain AnnexJCodec and a registry identity check)"
+        "; wave 6: the same datagram delivered twice in a row in the codec histories; udp-socket: ONE small real-socket stream (UDPMultiplexer/UDPDirector on 127.0.0.1, datagrams of 4..65000 octets from a plain socket)")
 TRUSTED = ["lean/BacVerif/Model/Bvll.lean is a hand transcription of bvll.py, pack/unpack_ip_addr and "
            "AnnexJCodec; tied by the enc/dec/cdec/bdec/benc/pack/unpack correspondence streams",
            "translator/registries.py (bvl_pdu_types -> Gen/BvlTypes.lean)",
@@ -823,6 +824,120 @@ def run_histories(ctx, stream, histories):
         ctx.sample({"stream": stream, "history": [short_case(c) for c in h[:4]]})
 
 
+# ---------------------------------------------------------------- the real-socket path (loopback UDP)
+
+def udp_frame(case):
+    """the datagram of a compact udp case: function, total length, deterministic contents"""
+    fn, total = case["fn"], case["total"]
+    body = bytes((i * 7 + total) & 0xFF for i in range(total - 4))
+    return bytes([0x81, fn]) + total.to_bytes(2, "big") + body
+
+
+def digest(reply):
+    """replies with the long payloads replaced by (length, sha1) — evidence stays small"""
+    import hashlib
+    def d(x):
+        if isinstance(x, str) and len(x) > 64:
+            return ["octets", len(x) // 2, hashlib.sha1(x.encode()).hexdigest()[:16]]
+        if isinstance(x, list):
+            return [d(y) for y in x]
+        return x
+    return {k: d(v) for k, v in reply.items()}
+
+
+def udp_stream(ctx, cases):
+    """DESIGN.md keeps real sockets out of scope; this ONE small stream is the
+    exception: a real UDPMultiplexer / UDPDirector on 127.0.0.1 (ephemeral
+    port) under a real AnnexJCodec, driven by a few asyncore polls (no virtual
+    clock).  Datagrams are sent from a plain socket; each must arrive upstream
+    complete and be decoded to the model's / Annex J reading of those octets."""
+    import socket
+    try:
+        from bacpypes import udp, core as bcore
+        from bacpypes.comm import Client, bind
+        from bacpypes.bvllservice import AnnexJCodec, UDPMultiplexer
+        from bacpypes.pdu import Address
+        probe = socket.socket(socket.AF_INET, socket.SOCK_DGRAM)
+        probe.bind(("127.0.0.1", 0))
+        port = probe.getsockname()[1]
+        probe.close()
+        mux = UDPMultiplexer(Address("127.0.0.1:%d" % port))
+        sender = socket.socket(socket.AF_INET, socket.SOCK_DGRAM)
+        sender.bind(("127.0.0.1", 0))
+    except OSError as e:
+        ctx.notes.append("udp-socket stream skipped: loopback UDP sockets are not usable here (%r)" % (e,))
+        return
+
+    class Top(Client):
+        got = None
+
+        def confirmation(self, pdu):
+            self.got = pdu
+    top, codec = Top(), AnnexJCodec()
+    bind(top, codec, mux.annexJ)
+    me = Address(("127.0.0.1", sender.getsockname()[1]))
+    full, replies = [], []
+    try:
+        for case in cases:
+            frame = udp_frame(case)
+            top.got, reply = None, None
+            sender.sendto(frame, ("127.0.0.1", port))
+            for _ in range(40):
+                udp.asyncore.loop(timeout=0.05, count=1)
+                if bcore.deferredFns:
+                    break
+            while bcore.deferredFns and reply is None:
+                fns = bcore.deferredFns[:]
+                del bcore.deferredFns[:]
+                for fn, a, k in fns:
+                    try:
+                        fn(*a, **k)
+                    except KeyError as e:
+                        reply = {"r": "unknown", "fn": e.args[0]}
+                    except Exception as e:
+                        reply = err_reply(e, ())
+            if reply is None:
+                if top.got is None:
+                    reply = {"r": "nothing-delivered"}
+                else:
+                    reply = {"r": "ok", "m": jmsg(top.got), "len": top.got.bvlciLength}
+                    if top.got.pduSource != me:
+                        ctx.fail("udp-source", dict(case, op="udp"), "datagram from %s delivered with source %s" % (me, top.got.pduSource), op="udp")
+            want = ref_cdec(frame)
+            if reply != want:
+                ctx.fail("udp-path", dict(case, op="udp"), "a %d-octet datagram (function 0x%02x) sent over loopback UDP came out of the real "
+                         "UDPMultiplexer + AnnexJCodec as %s, Annex J reading of the octets sent is %s" % (
+                             len(frame), case["fn"], core.canon(digest(reply))[:200], core.canon(digest(want))[:200]), op="udp")
+            full.append({"op": "cdec", "hex": frame.hex()})
+            replies.append(digest(reply))
+    finally:
+        try:
+            mux.close_socket()
+        except Exception:
+            pass
+        sender.close()
+    compact = [dict(c, op="udp") for c in cases]
+    if ctx.model_ok:
+        b = [digest(r) for r in core.Driver("drv_c09").ask(full)]
+        ctx.compare_stream("udp-socket", compact, replies, b, sig=lambda c, r: (c["fn"], size_class(c["total"]), r.get("r")))
+    else:
+        for c in compact:
+            ctx.count("udp-socket")
+    ctx.sample({"stream": "udp-socket", "case": compact[0]})
+
+
+UDP_CASES = ([{"fn": 0x0A, "total": n} for n in (4, 1497, 1500, 1501, 1600, 9000, 65000)] +
+             [{"fn": 0x04, "total": n} for n in (10, 1500, 1501, 1507)] +
+             [{"fn": 0x0B, "total": n} for n in (1500, 1501)] + [{"fn": 0x09, "total": 1501}, {"fn": 0x00, "total": 6},
+              {"fn": 0x0C, "total": 1501}, {"fn": 0x01, "total": 1504}])
+
+
+def shard_udp(ctx, spec):
+    import os
+    ctx.model_ok = os.path.exists(os.path.join(core.LEAN, ".lake", "build", "bin", "drv_c09"))
+    udp_stream(ctx, UDP_CASES[spec::2])
+
+
 # ---------------------------------------------------------------- user subclasses of the library message classes
 
 class Wrap:
@@ -1284,6 +1399,8 @@ def run(ctx):
     if cc:
         run_cases(ctx, "corpus", [c for c in cc if c["op"] != "history"])
         run_histories(ctx, "corpus-history", [c["steps"] for c in cc if c["op"] == "history"])
+    # real sockets first, in forked workers, before anything installs the virtual clock
+    core.run_shards(ctx, "harness.c09", "shard_udp", [0, 1])
     enc = gen_enc(ctx, rng)
     impl_enc = run_cases(ctx, "enc", enc)
     oracle_mutated_table(ctx, rng)
@@ -1322,6 +1439,7 @@ def search(ctx):
         if ctx.failures:
             return
         if rnd_ == 0:
+            core.run_shards(ctx, "harness.c09", "shard_udp", [0, 1])
             core.run_shards(ctx, "harness.c09", "shard_subclass", [(0, 1), (1, 2)])
             if ctx.failures:
                 return
@@ -1352,6 +1470,9 @@ def replay(ctx, payload):
         raise core.Infra("nothing to replay")
     if case["op"] == "history":
         run_histories(ctx, "replay", [case["steps"]])
+        return
+    if case["op"] == "udp":
+        udp_stream(ctx, [{"fn": case["fn"], "total": case["total"]}])
         return
     if case["op"] == "subclass-history":
         names = define_user_subclasses()
